@@ -122,6 +122,23 @@ pub fn tie_case(text: &str, strict: bool) -> Option<(String, String)> {
 /// like `tie_case`, for documents that contain A2ML / IF_DATA (`special` types of the parser model)
 pub fn tie_case_special(text: &str, strict: bool) -> Option<(String, String)> {
     let dump = catch(|| a2lfile::verif_hooks::tokenize_dump(text));
+    let request = format!("a2l {} {} L {}", u8::from(strict), hex(text.as_bytes()), float_table(text));
+    let answer = match (&dump, load(text, strict)) {
+        (Err(_), _) | (_, Loaded::Panic(_)) => "PANIC".to_string(),
+        (Ok(Err((kind, line))), _) => format!("err Tokenizer:{kind}@{line}"),
+        (_, Loaded::Err(e)) => format!("err {e}"),
+        (_, Loaded::Ok(f, log)) => match catch(|| f.write_to_string()) {
+            Ok(w) => format!("ok;log={};text={}", log_text(&log), hex(w.as_bytes())),
+            Err(_) => "PANIC-write".to_string(),
+        },
+    };
+    Some((request, answer))
+}
+
+/// the float codec table of a document that may contain A2ML / IF_DATA: `<hex token>=<hex printed>` for f64, and under
+/// the key `f32:<token>` what the value prints as after a round trip through f32 (A2ML `float` members)
+pub fn float_table(text: &str) -> String {
+    let dump = catch(|| a2lfile::verif_hooks::tokenize_dump(text));
     let toks = match &dump {
         Ok(Ok(t)) => t.clone(),
         _ => vec![],
@@ -144,15 +161,5 @@ pub fn tie_case_special(text: &str, strict: bool) -> Option<(String, String)> {
             }
         }
     }
-    let request = format!("a2l {} {} L {}", u8::from(strict), hex(text.as_bytes()), if floats.is_empty() { "-".to_string() } else { floats.join(",") });
-    let answer = match (&dump, load(text, strict)) {
-        (Err(_), _) | (_, Loaded::Panic(_)) => "PANIC".to_string(),
-        (Ok(Err((kind, line))), _) => format!("err Tokenizer:{kind}@{line}"),
-        (_, Loaded::Err(e)) => format!("err {e}"),
-        (_, Loaded::Ok(f, log)) => match catch(|| f.write_to_string()) {
-            Ok(w) => format!("ok;log={};text={}", log_text(&log), hex(w.as_bytes())),
-            Err(_) => "PANIC-write".to_string(),
-        },
-    };
-    Some((request, answer))
+    if floats.is_empty() { "-".to_string() } else { floats.join(",") }
 }
